@@ -250,7 +250,10 @@ static RouteRes runRoute(const LPModel& M, const NamedLP& user, const Route& r, 
                break;
             }
             const Q& a = E.M.A[i][j], &b = R.M.A[ri[E.rn[i]]][ci[E.cn[j]]];
-            if((a == 0) != (b == 0)) pat = false;
+            // (real MPS prints 15 decimals: a scaled entry below 5e-16 is legitimately written as 0.000000000000000 and read
+            // back as zero, whatever the unscaled entry is; only an entry appearing from nowhere is checked there)
+            if(a == 0 && b != 0) pat = false;
+            if(a != 0 && b == 0 && !mps) pat = false;
             if(a != b) differs = true;
          }
       if(!pat) fail("unscale-false:pattern", "file written with unscale=false does not have the nonzero pattern / names of the LP");
@@ -851,7 +854,20 @@ static void caseLitBlock(long long k)
    {
       const std::string& lit = lits[(size_t)i];
       S.count("lit.enumerated");
-      bool viaFiles = fsample <= 1 || lit.size() <= 4 || (fnv(lit) ^ (cli.seed * 0x9E3779B97F4A7C15ULL)) % fsample == 0;
+      uint64_t h = fnv(lit) ^ (cli.seed * 0x9E3779B97F4A7C15ULL);
+      bool viaFiles = fsample <= 1 || lit.size() <= 4 || h % fsample == 0;
+      // literals with an exponent > 308 kill the rational readers (SIGFPE, known finding) and need a forked child each:
+      // in sampled mode only every 6th of the sampled ones goes through files
+      if(viaFiles && fsample > 1 && lit.size() > 4 && (h / fsample) % 6 != 0)
+      {
+         Q q;
+         LitInfo L;
+         if(parseLiteral(lit, q, L) && L.cls == "huge-exponent")
+         {
+            viaFiles = false;
+            S.count("lit.huge_exponent_file_route_sampled_out");
+         }
+      }
       if(viaFiles) S.count("lit.through_files");
       checkLiteral(k, lit, viaFiles, "lit");
    }
